@@ -199,6 +199,83 @@ def d2(cx: Cx, ob: Ob) -> None:
 def d3(cx: Cx, ob: Ob) -> None:
     check_tails(cx, ob, TARGETS)
     flags_only_report(cx, ob)
+    delegated_echo(cx, ob)
+
+
+def delegated_echo(cx: Cx, ob: Ob) -> None:
+    """A function that hands a PARSED (standardised) form of its input to another conversion function together with
+    its own ``passthrough`` relies on that function never reaching its passthrough tail: what the callee echoes is the
+    standardised form, not the caller's input.  The callee's tail is out of reach for parsed references exactly when
+    every path to it has found the reference's prefix missing from the lookup table (a parsed reference carries a
+    stored prefix); a path that gets there after a successful lookup makes the caller answer with a string that is
+    neither the conversion nor the input."""
+    from ..rules import self_call
+
+    for name in TARGETS:
+        fn = cx.fn(f"{CONV}.{name}", ob.id)
+        if fn.param("passthrough") is None:
+            continue
+        me = ("param", fn.self_name)
+        inputs = {("param", p.name) for p in fn.params if p.name not in FLAGS and p.name != fn.self_name}
+        s = cx.summary(fn, ob.id)
+        for t, ctx in s.returns():
+            if not (self_call(t, me) and t[1][2] in TARGETS):
+                continue
+            if dict(t[3]).get("passthrough") != ("param", "passthrough"):
+                continue
+            callee = cx.fn(f"{CONV}.{t[1][2]}", ob.id)
+            line = ctx.path.out[2]
+            for i, a in enumerate(t[2]):
+                if a in inputs:
+                    continue
+                parsed = [c for c in subterms(a) if self_call(c, me) and c[1][2] in ("parse", "parse_curie", "parse_uri") and c[2] and c[2][0] in inputs]
+                if not parsed or i + 1 >= len(callee.params):
+                    continue
+                cp = ("param", callee.params[i + 1].name)
+                cme = ("param", callee.self_name)
+                cs = cx.summary(callee, ob.id)
+                for rt, rctx in cs.returns():
+                    if _kind(callee, rt) != "ECHO":
+                        continue
+                    gs = [g for g in rctx.guards if g.kind == "guard"]
+                    if not any(op(g.a) == "param" and g.a[1] == "passthrough" and g.b for g in gs):
+                        continue
+
+                    def lookup_failed(g) -> bool:
+                        """The guard says: the reference's prefix was NOT found among the converter's names."""
+                        a_, pol = g.a, g.b
+
+                        def about_param(k) -> bool:
+                            return any(x == cp for x in subterms(k))
+
+                        if op(a_) == "cmp" and a_[1] in ("in", "not in"):
+                            miss = (a_[1] == "not in") == bool(pol)
+                            tab = a_[3]
+                            while op(tab) == "call" and op(tab[1]) == "attr" and tab[1][2] in ("keys",):
+                                tab = tab[1][1]
+                            return miss and op(tab) == "attr" and tab[1] == cme and about_param(a_[2])
+                        if op(a_) == "cmp" and is_const(a_[3], None) and a_[1] in ("is", "is not"):
+                            x, want_none = a_[2], (a_[1] == "is") == bool(pol)
+                        else:
+                            return False
+                        if not want_none or op(x) != "call" or op(x[1]) != "attr" or not x[2]:
+                            return False
+                        if x[1][2] == "get" and op(x[1][1]) == "attr" and x[1][1][1] == cme:
+                            return about_param(x[2][0])
+                        if x[1][1] == cme and x[1][2] in ("get_record", "standardize_prefix"):
+                            return about_param(x[2][0])
+                        return False
+
+                    ob.site(f"{where(fn, line)} {fn.qualname}", f"hands {show(a)[:50]} to {callee.name}: its passthrough tail at line {rctx.path.out[2]}")
+                    if not any(lookup_failed(g) for g in gs):
+                        extra = [g for g in gs if op(g.a) != "param"]
+                        ob.violate(
+                            fn.qualname,
+                            where(fn, line),
+                            f"{fn.name} hands the parsed (standardised) form of its input to {callee.name} with its own passthrough, and {callee.name} now reaches its passthrough tail (line {rctx.path.out[2]}) after a SUCCESSFUL lookup ({'; '.join(('' if g.b else 'not ') + show(g.a)[:40] for g in extra) or 'no lookup test'}): the caller answers with the re-joined standard form, neither the conversion nor its input",
+                            witness="expand_or_standardize('https://identifiers.org/GO:', passthrough=True) == 'GO:' for a synonym URI prefix",
+                            detail=f"echo-of-derived:{callee.name}",
+                        )
 
 
 def flags_only_report(cx: Cx, ob: Ob) -> None:
